@@ -66,6 +66,8 @@ KILL = [
      'selfies/grammar_rules.py', '''    if atom.bonding_capacity < 0:
         return None  # too many Hs (e.g. [CH9]
 ''', '', 'capacity-checked-per-call'),
+    ('alphabet-drops-boundary-prefix', ['C07'], 'selfies/bond_constraints.py::get_semantic_robust_alphabet',
+     'selfies/bond_constraints.py', 'if (m > c) or (a == "?"):', 'if (m >= c) or (a == "?"):', 'rows-done'),
     ('nop-not-filtered', ['C13'], 'selfies/decoder.py::_tokenize_selfies', 'selfies/decoder.py',
      '''            if symbol == "[nop]":
                 continue
